@@ -30,6 +30,7 @@ func Thorough() bool
 func Concrete(v any) bool
 func Replace(target string, fn any)
 func Native() bool
+func RaceMonitor() // lockset (Eraser) race monitor over every heap cell touched by the code under test
 func NativeUnsupported(why string)
 func ReplaceSym(target string, fn any) // like Replace, but the native replay runs the real function
 func UF8(name string, in []byte) byte
